@@ -73,26 +73,26 @@ type Scenario interface {
 
 // Config bounds one exploration.
 type Config struct {
-	MaxDepth  int           // maximum depth (0 = unbounded)
-	MaxStates int           // state cap (0 = unbounded)
-	Deadline  time.Time     // wall clock deadline (zero = none)
-	Workers   int           // 0 = NumCPU
-	StopOnViolation bool    // stop after the level in which the first unknown violation was found
-	KeepKeys  bool          // keep ordered (key) list per level (for cross-process determinism comparison)
-	OnLevel   func(depth int, st *Stats)
-	IsKnown   func(f *Failure) bool // known findings (pruned, reported once)
+	MaxDepth        int       // maximum depth (0 = unbounded)
+	MaxStates       int       // state cap (0 = unbounded)
+	Deadline        time.Time // wall clock deadline (zero = none)
+	Workers         int       // 0 = NumCPU
+	StopOnViolation bool      // stop after the level in which the first unknown violation was found
+	KeepKeys        bool      // keep ordered (key) list per level (for cross-process determinism comparison)
+	OnLevel         func(depth int, st *Stats)
+	IsKnown         func(f *Failure) bool // known findings (pruned, reported once)
 	// Accept decides whether a failure belongs to the property being checked. Failures of other properties' oracles
 	// are recorded (Found.Foreign) but do not stop or prune the exploration when they come from a state oracle.
-	Accept func(f *Failure, lastKind string) bool
-	CheckEveryReplay bool               // compare state key and history hash after every replay, not only the first per state
-	DumpLevel int                       // if > 0: call Dump for every new state found at this depth
-	Dump      func(path []Op, key [16]byte, hist uint64)
+	Accept           func(f *Failure, lastKind string) bool
+	CheckEveryReplay bool // compare state key and history hash after every replay, not only the first per state
+	DumpLevel        int  // if > 0: call Dump for every new state found at this depth
+	Dump             func(path []Op, key [16]byte, hist uint64)
 }
 
 // Found is a failure with the shortest history that produced it.
 type Found struct {
 	Failure
-	Path  []Op
+	Path    []Op
 	Count   int
 	Known   bool
 	Foreign bool
@@ -100,23 +100,23 @@ type Found struct {
 
 // Stats reports what an exploration covered.
 type Stats struct {
-	Scenario        string
-	States          int
-	Transitions     int
-	SelfLoops       int
-	Pruned          int
-	CompletedDepth  int
-	MaxDepth        int
-	Fixpoint        bool
-	CapHit          string
-	PerKind         map[string]int
-	Outcomes        map[string]int
-	Found           []*Found
-	Samples         [][]string
-	LevelDigests    []string
-	LevelTrans      []int
-	Wall            time.Duration
-	FrontierSizes   []int
+	Scenario       string
+	States         int
+	Transitions    int
+	SelfLoops      int
+	Pruned         int
+	CompletedDepth int
+	MaxDepth       int
+	Fixpoint       bool
+	CapHit         string
+	PerKind        map[string]int
+	Outcomes       map[string]int
+	Found          []*Found
+	Samples        [][]string
+	LevelDigests   []string
+	LevelTrans     []int
+	Wall           time.Duration
+	FrontierSizes  []int
 }
 
 type node struct {
@@ -336,80 +336,90 @@ func Explore(sc Scenario, cfg Config) *Stats {
 					if atomic.LoadInt32(&aborted) != 0 {
 						return
 					}
-					si := frontier[fi]
-					p := e.path(si)
-					o := &out[fi]
-					cur, f, _ := Replay(sc, p, false)
-					if f != nil {
-						o.stateErr = &Failure{Prop: "C13", Sig: "NONDET:replay-failure:" + f.Sig, Msg: "replaying a stored history produced a failure that the first execution did not: " + f.Msg}
-						o.done = true
-						continue
-					}
-					buf = cur.Key(buf[:0])
-					ck := hashKey(buf)
-					if ck != e.keys[si] {
-						o.stateErr = &Failure{Prop: "C13", Sig: "NONDET:replay-key", Msg: "replaying the same history on a fresh world produced a different state"}
-						o.done = true
-						continue
-					}
-					if histOf(cur) != e.hists[si] {
-						o.stateErr = &Failure{Prop: "C13", Sig: "NONDET:replay-transcript", Msg: "replaying the same history on a fresh world produced different observations (handles, iteration order, events or return values)"}
-						o.done = true
-						continue
-					}
-					if f := cur.Check(); f != nil {
-						last := ""
-						if len(p) > 0 {
-							last = sc.OpKind(p[len(p)-1])
-						}
-						if cfg.Accept == nil || cfg.Accept(f, last) {
-							o.stateErr = f
+					func() {
+						defer func() {
+							if x := recover(); x != nil {
+								o := &out[fi]
+								o.rs = nil
+								o.stateErr = &Failure{Sig: "checker-panic", Msg: fmt.Sprintf("exploring this history panicked outside the guarded calls (corrupted world?): %v", x)}
+								o.done = true
+							}
+						}()
+						si := frontier[fi]
+						p := e.path(si)
+						o := &out[fi]
+						cur, f, _ := Replay(sc, p, false)
+						if f != nil {
+							o.stateErr = &Failure{Prop: "C13", Sig: "NONDET:replay-failure:" + f.Sig, Msg: "replaying a stored history produced a failure that the first execution did not: " + f.Msg}
 							o.done = true
-							continue
+							return
 						}
-						o.foreign = f
-					}
-					ops := cur.Enabled()
-					o.rs = make([]res, 0, len(ops))
-					fresh := true
-					for _, op := range ops {
-						if !fresh {
-							cur, _, _ = Replay(sc, p, false)
-							if cfg.CheckEveryReplay {
-								buf = cur.Key(buf[:0])
-								if hashKey(buf) != ck || histOf(cur) != e.hists[si] {
-									o.stateErr = &Failure{Prop: "C13", Sig: "NONDET:replay-key", Msg: "replaying the same history on a fresh world produced a different state or different observations"}
-									break
+						buf = cur.Key(buf[:0])
+						ck := hashKey(buf)
+						if ck != e.keys[si] {
+							o.stateErr = &Failure{Prop: "C13", Sig: "NONDET:replay-key", Msg: "replaying the same history on a fresh world produced a different state"}
+							o.done = true
+							return
+						}
+						if histOf(cur) != e.hists[si] {
+							o.stateErr = &Failure{Prop: "C13", Sig: "NONDET:replay-transcript", Msg: "replaying the same history on a fresh world produced different observations (handles, iteration order, events or return values)"}
+							o.done = true
+							return
+						}
+						if f := cur.Check(); f != nil {
+							last := ""
+							if len(p) > 0 {
+								last = sc.OpKind(p[len(p)-1])
+							}
+							if cfg.Accept == nil || cfg.Accept(f, last) {
+								o.stateErr = f
+								o.done = true
+								return
+							}
+							o.foreign = f
+						}
+						ops := cur.Enabled()
+						o.rs = make([]res, 0, len(ops))
+						fresh := true
+						for _, op := range ops {
+							if !fresh {
+								cur, _, _ = Replay(sc, p, false)
+								if cfg.CheckEveryReplay {
+									buf = cur.Key(buf[:0])
+									if hashKey(buf) != ck || histOf(cur) != e.hists[si] {
+										o.stateErr = &Failure{Prop: "C13", Sig: "NONDET:replay-key", Msg: "replaying the same history on a fresh world produced a different state or different observations"}
+										break
+									}
 								}
 							}
-						}
-						if fz, ok := cur.(Finalizer); ok {
-							fz.BeginFinal()
-						}
-						x := cur.Apply(op)
-						r := res{op: op, fail: x.Fail, prune: x.Prune, outcome: cur.Outcome()}
-						if x.Fail == nil {
-							buf = cur.Key(buf[:0])
-							r.key = hashKey(buf)
-							r.hist = histOf(cur)
-							if r.key == ck {
-								r.self = true
+							if fz, ok := cur.(Finalizer); ok {
+								fz.BeginFinal()
+							}
+							x := cur.Apply(op)
+							r := res{op: op, fail: x.Fail, prune: x.Prune, outcome: cur.Outcome()}
+							if x.Fail == nil {
+								buf = cur.Key(buf[:0])
+								r.key = hashKey(buf)
+								r.hist = histOf(cur)
+								if r.key == ck {
+									r.self = true
+								} else {
+									fresh = false
+								}
+								if r.hist != e.hists[si] {
+									// the run's observation history moved on: it is no longer a faithful replay of the parent
+									fresh = false
+								}
 							} else {
 								fresh = false
 							}
-							if r.hist != e.hists[si] {
-								// the run's observation history moved on: it is no longer a faithful replay of the parent
-								fresh = false
+							if r.self && r.hist == e.hists[si] {
+								fresh = true
 							}
-						} else {
-							fresh = false
+							o.rs = append(o.rs, r)
 						}
-						if r.self && r.hist == e.hists[si] {
-							fresh = true
-						}
-						o.rs = append(o.rs, r)
-					}
-					o.done = true
+						o.done = true
+					}()
 				}
 			}()
 		}
